@@ -28,7 +28,7 @@ func H01_shape() {
 		}}
 	if vParam("comp", 0) == 1 {
 		// a composite field (bleve's _all): delivered through VisitComposite, its locations name the source field
-		cfg.fields[1] = gField{name: "c", terms: []string{"é", "b"}, tv: true, maxLocs: 1, comp: true, locField: "f"}
+		cfg.fields[1] = gField{name: "c", terms: []string{"é", "b"}, tv: true, maxLocs: 1, comp: true, locField: "f", noTVOpt: vParam("noTVOpt", 1) == 1}
 		cfg.fields[0].always = true
 	}
 	if vParam("lite", 0) == 1 {
